@@ -760,6 +760,16 @@ Definition leader_completeness_spec_b (cfg : config) (s : state) : bool :=
               match term_at (s_log (srv s i)) idx with Some t => t <=? s_term (srv s j) | None => false end)
         || ((idx <=? List.length (s_log (srv s j))) && oentry_eqb (log_at (s_log (srv s i)) idx) (log_at (s_log (srv s j)) idx))))
       (seq 1 (List.length (s_log (srv s i))))).
+(* the property's leader completeness as a state predicate: an entry within the commit index of a server whose term is T
+   is in the log of every Leader of a term >= T *)
+Definition leader_completeness_b (cfg : config) (s : state) : bool :=
+  forall_servers cfg (fun i =>
+    forallb (fun idx =>
+      forall_servers cfg (fun j =>
+        negb (role_eqb (s_role (srv s j)) Leader && (s_term (srv s i) <=? s_term (srv s j)))
+        || match log_at (s_log (srv s i)) idx, log_at (s_log (srv s j)) idx with
+           | Some a, Some b => entry_eqb a b | _, _ => false end))
+      (seq 1 (s_commit (srv s i)))).
 Definition state_machine_safety_b (cfg : config) (s : state) : bool :=
   forall_servers cfg (fun i => forall_servers cfg (fun j =>
     forallb (fun k => match log_at (s_log (srv s i)) k, log_at (s_log (srv s j)) k with
